@@ -1408,6 +1408,12 @@ def _run(ctx):
             else:
                 ops.append("l:" + fseq(p))
         lines.append("db %s %s" % (init, "+".join(ops)))
+    # the whole database of one length filled in ONE call (create_dfa_db_for_length(5): 120 permutations, more than any
+    # batch size an implementation may use), then look-ups of early, late and random permutations of that length
+    # (about 35 s in the implementation: one line, first in its stream)
+    p5 = list(itertools.permutations(range(5)))
+    loads = [p5[3], p5[0], p5[-1], p5[63], p5[64], p5[65]] + rng.sample(p5, 4 if quick else 30)
+    lines.insert(0, "db - c:5+" + "+".join("l:" + fseq(q) for q in loads))
     ctx.compare("db-random", lines)
     # ------------------------------------------------------------------ shipped data
     files = sorted(f[:-5] for f in os.listdir(RES) if f.endswith(".json"))
